@@ -15,6 +15,42 @@ Lemma value_reencode : forall c v rest, value_reader_no_len c = false -> wf_dval
   exists v', new_value parse_opt c (enc_dval v ++ rest) = ROk (v', rest) /\ enc_dval v' = enc_dval v.
 Proof. intros c v rest Hc Hwf. exists v. split; [now apply value_roundtrip_top|reflexivity]. Qed.
 
+(* the encoding is injective and prefix-free: two well-formed values followed by any bytes
+   that produce the same byte string are the same value followed by the same bytes, so no
+   value's encoding can be mistaken for (a prefix of) another's *)
+Lemma value_enc_injective : forall v1 v2 r1 r2, wf_dval v1 -> wf_dval v2 ->
+  enc_dval v1 ++ r1 = enc_dval v2 ++ r2 -> v1 = v2 /\ r1 = r2.
+Proof.
+  intros v1 v2 r1 r2 H1 H2 He.
+  pose proof (value_roundtrip_top wclean v1 r1 eq_refl H1) as E1.
+  pose proof (value_roundtrip_top wclean v2 r2 eq_refl H2) as E2.
+  rewrite He in E1. rewrite E1 in E2. inversion E2 as [[Hv Hr]]. split; reflexivity.
+Qed.
+Lemma value_enc_not_prefix : forall v1 v2 r, wf_dval v1 -> wf_dval v2 ->
+  enc_dval v1 = enc_dval v2 ++ r -> v1 = v2 /\ r = [].
+Proof.
+  intros v1 v2 r H1 H2 He. rewrite <- (app_nil_r (enc_dval v1)) in He.
+  destruct (value_enc_injective v1 v2 [] r H1 H2 He) as [Hv Hr]. split; [exact Hv|now symmetry].
+Qed.
+
+(* typed data: for a fixed signature the documented encoding is injective and prefix-free on
+   well-typed values, and what the reflection encoder writes is read back by the typed decoder
+   of the documented format (the two serializers compose to the identity) *)
+Lemma spec_enc_injective : forall t v1 v2 r1 r2, wf_ty t = true -> has_ty v1 t = true -> has_ty v2 t = true ->
+  spec_enc v1 ++ r1 = spec_enc v2 ++ r2 -> v1 = v2 /\ r1 = r2.
+Proof.
+  intros t v1 v2 r1 r2 Ht H1 H2 He.
+  pose proof (spec_dec_enc_top v1 t (Nat.max (dyn_depth v1) (dyn_depth v2)) r1 Ht H1 (PeanoNat.Nat.le_max_l _ _)) as E1.
+  pose proof (spec_dec_enc_top v2 t (Nat.max (dyn_depth v1) (dyn_depth v2)) r2 Ht H2 (PeanoNat.Nat.le_max_r _ _)) as E2.
+  rewrite He in E1. rewrite E1 in E2. inversion E2 as [[Hv Hr]]. split; reflexivity.
+Qed.
+Lemma refl_enc_spec_dec : forall c v t fuel rest, refl_drop8 c = false -> wf_ty t = true ->
+  has_ty v t = true -> refl_domain t = true -> (dyn_depth v <= fuel)%nat ->
+  spec_dec parse_opt fuel t (refl_enc c v ++ rest) = ROk (v, rest).
+Proof.
+  intros c v t fuel rest Hc Ht Hv Hd Hf. rewrite (refl_enc_spec c v t Hc Hv Hd). now apply spec_dec_enc_top.
+Qed.
+
 (* generated decoders (MetaObject, ObjectReference, ServiceInfo ...): instances of the typed decoder *)
 Lemma gen_dec_exact : forall t v rest, wf_ty t = true -> has_ty v t = true -> dyn_depth v = 0%nat ->
   gen_dec parse_opt t (spec_enc v ++ rest) = ROk (v, rest).
